@@ -199,6 +199,72 @@ func c15(p *core.Program, r *core.Report) {
 			r.Bad(rs, short(fn)+"/segment-distance", p.Pos(fn.Pos()), "DistanceFromPointToLineString no longer measures segments with DistanceFromPointToLine")
 		}
 	}
+	const rq = "four-endpoint-distances"
+	r.Rule(rq, "in the 2D segment-to-segment distance a returned minimum over point-to-segment distances (builtin min or math.Min, outside loops) takes each of the four end points as the point once: when the segments do not cross the closest approach is at an end point of one of them, and which one is not known in advance - a minimum over two `facing` end points chosen by one ordinate misses the other two", 1)
+	if fn := mustFn(p, r, rq, "xy", "DistanceFromLineToLine"); fn != nil && len(fn.Params) >= 4 {
+		loops := eng.Loops(fn)
+		inLoop := func(in ssa.Instruction) bool {
+			for _, l := range loops {
+				if l.Body[in.Block()] {
+					return true
+				}
+			}
+			return false
+		}
+		// the point arguments reached from a value through min / math.Min / phis
+		var points func(v ssa.Value, depth int, out map[ssa.Value]bool, looped *bool, nmin *int)
+		points = func(v ssa.Value, depth int, out map[ssa.Value]bool, looped *bool, nmin *int) {
+			if depth > 8 {
+				return
+			}
+			switch x := v.(type) {
+			case *ssa.Call:
+				if eng.BuiltinName(x) == "min" || eng.IsCallTo(x, "math", "Min") {
+					*nmin++
+					for _, a := range x.Call.Args {
+						points(a, depth+1, out, looped, nmin)
+					}
+					return
+				}
+				if g := x.Call.StaticCallee(); g != nil && g.Name() == "DistanceFromPointToLine" && len(x.Call.Args) == 3 {
+					if inLoop(x) {
+						*looped = true
+					}
+					out[x.Call.Args[0]] = true
+				}
+			case *ssa.Phi:
+				for _, e := range x.Edges {
+					if e != ssa.Value(x) {
+						points(e, depth+1, out, looped, nmin)
+					}
+				}
+			}
+		}
+		n := 0
+		for _, b := range fn.Blocks {
+			ret, ok := b.Instrs[len(b.Instrs)-1].(*ssa.Return)
+			if !ok || len(ret.Results) != 1 {
+				continue
+			}
+			pts := map[ssa.Value]bool{}
+			looped, nmin := false, 0
+			points(ret.Results[0], 0, pts, &looped, &nmin)
+			if nmin == 0 || len(pts) < 2 || looped {
+				continue // not a minimum over end-point distances (or one taken in a loop over a table)
+			}
+			n++
+			missing := []string{}
+			for _, prm := range fn.Params[:4] {
+				if !pts[prm] {
+					missing = append(missing, prm.Name())
+				}
+			}
+			r.Check(len(missing) == 0, rq, fmt.Sprintf("%s/min#%d", short(fn), n), p.Pos(ret.Pos()), true, "all four end points are measured", fmt.Sprintf("the minimum returned at %s does not measure the end point(s) %v against the other segment", p.Pos(ret.Pos()), missing))
+		}
+		if n == 0 {
+			r.OK(rq, short(fn)+"/no-explicit-minimum", p.Pos(fn.Pos()), true, "no minimum over end-point distances outside a loop (a table-driven loop is not decided)")
+		}
+	}
 	const r1 = "zero-length-guards"
 	r.Rule(r1, "the 2D and 3D siblings test the same pairs of parameters for coordinate equality before the main computation: point-segment (lineStart,lineEnd); segment-segment {(line1Start,line1End),(line2Start,line2End)} - closed under exchanging the two segments - and on each guard's true edge they return the point-to-segment distance of a point of the degenerate segment to the other segment", 6)
 	type fnSpec struct {
@@ -289,6 +355,6 @@ func c15(p *core.Program, r *core.Report) {
 	strideRule(p, r, "stride-discipline", []strideTarget{{"xyz", "*", "xyz"}, {"xy", "DistanceFromPointToLine", "xy"}, {"xy", "PerpendicularDistanceFromPointToLine", "xy"}, {"xy", "DistanceFromPointToLineString", "xy"}, {"xy", "DistanceFromLineToLine", "xy"}})
 	footprintRule(p, r, "segment-coverage", [][2]string{{"xy", "DistanceFromPointToLineString"}})
 	denominatorSignRule(p, r, "denominator-sign-known", [][2]string{{"xy", "DistanceFromLineToLine"}, {"xyz", "DistanceLineToLine"}})
-	clampedProjectionRule(p, r, "segment-distance-clamped", [][2]string{{"xy", "DistanceFromPointToLine"}, {"xyz", "DistancePointToLine"}, {"xy", "distanceFromSegmentSquared"}})
+	clampedProjectionRule(p, r, "segment-distance-clamped", [][2]string{{"xy", "DistanceFromPointToLine"}, {"xyz", "DistancePointToLine"}, {"xy", rdpDistanceName(p)}})
 	r.Assume("the distances themselves (accuracy, symmetry, zero on contact) are not decided")
 }
